@@ -785,6 +785,15 @@ func (c *Ctx) RequestPathWaits(prop string) {
 					if x.Op == token.ARROW {
 						what = "waits for a channel"
 					}
+				case ssa.CallInstruction:
+					if cal := x.Common().StaticCallee(); cal != nil {
+						switch cal.String() {
+						case "(*sync.Cond).Wait":
+							what = "waits on a condition variable"
+						case "(*sync.WaitGroup).Wait":
+							what = "waits for a wait group"
+						}
+					}
 				}
 				if what != "" {
 					bad++
